@@ -268,13 +268,23 @@ def rule_bisect(ctx):
     n += 1
     reads = [c for c in q.own_calls(f) if q.callee_name(ctx, f, c) == 'self.hashes_file.read']
     ok2 = len(reads) == 1 and norm(reads[0].args[0]) in (f'{p} * 32', f'32 * {p}') and const_value(reads[0].args[1]) == 32
-    ifs = [s for s in f.node.body if isinstance(s, ast.If)]
-    ok3 = False
-    if len(ifs) == 1 and calls and isinstance(q.stmt(calls[0]), ast.Assign):
-        hv = norm(q.stmt(calls[0]).targets[0])
-        cn = q.comparison_normal(ctx, f, ifs[0].test)
-        ok3 = cn is not None and cn[1] == '>' and q.lin_eq(cn[0], {hv: 1, 'self.state.height': -1, '': 0}) and \
-            any(isinstance(x, ast.Assign) and norm(x.value) == 'None' for x in ifs[0].body) and q.in_body(reads[0], ifs[0].orelse) if reads else False
+    # every way out of the function: (height above the flushed height) <=> (no read, hash None)
+    from .. import paths as P
+    ok3 = bool(calls) and len(calls) == 1
+    if ok3:
+        rets = P.returns(f.node)
+        ok3 = bool(rets)
+        for pth in rets:
+            v = pth.value
+            above = P.decided(ctx, f, pth, f'{norm(calls[0])} > self.state.height')
+            if not (isinstance(v, ast.Tuple) and len(v.elts) == 2) or above is None:
+                ok3 = False
+                break
+            has_read = any(isinstance(x, ast.Call) and norm(x.func) == norm(reads[0].func) for x in ast.walk(v.elts[0])) if reads else False
+            if above and not (isinstance(v.elts[0], ast.Constant) and v.elts[0].value is None):
+                ok3 = False
+            if not above and not (isinstance(v.elts[0], ast.Call) and has_read):
+                ok3 = False
     ctx.check(ok2 and ok3, 'C02.BISECT', ctx.key(f, None, 'hash of a tx number'),
               'the hash is read at 32 * tx_num; heights above the flushed height yield None',
               'the tx hash is not read at 32 * tx_num under height <= state.height', loc=ctx.loc(f, f.node))
@@ -350,19 +360,43 @@ def rule_byheight(ctx):
         return None
     fv, cv = factor32(off), factor32(size)
     d = df.defs(f)
-    fdefs = d.get(fv, []) if fv else []
-    vals = sorted(norm(rhs) for _s, rhs in fdefs)
-    conds = []
-    for st, rhs in fdefs:
-        cc = pr.control_conditions(st, f.node)
-        if len(cc) == 1 and q.cmp_matches(ctx, f, cc[0][0], f'{p} > 0'):
-            conds.append((norm(rhs) != '0') == cc[0][1])
-    ok = vals == ['0', f'self.tx_counts[{p} - 1]'] and conds == [True, True]
+    # on every path to the read: offset = 32 * (tx_counts[h - 1] if h > 0 else 0), size = 32 * (tx_counts[h] - that)
+    from .. import paths as P
+
+    def factor(e):
+        if isinstance(e, ast.BinOp) and isinstance(e.op, ast.Mult):
+            if const_value(e.right) == 32:
+                return e.left
+            if const_value(e.left) == 32:
+                return e.right
+        return None
+    ok = ok2 = True
+    seen = 0
+    vals = []
+    for pth in P.paths(f.node.body):
+        if pth.exit == 'raise':
+            continue
+        rcs = [x for v_ in list(pth.env.values()) + [pth.value] if v_ is not None for x in ast.walk(v_)
+               if isinstance(x, ast.Call) and norm(x.func) == norm(reads[0].func)]
+        if not rcs:
+            ok = False
+            continue
+        seen += 1
+        o_, s_ = factor(rcs[0].args[0]), factor(rcs[0].args[1])
+        pos = P.decided(ctx, f, pth, f'{p} > 0')
+        vals.append(norm(o_) if o_ is not None else '?')
+        if o_ is None or pos is None:
+            ok = False
+        elif pos:
+            ok = ok and norm(o_) == f'self.tx_counts[{p} - 1]'
+        else:
+            ok = ok and const_value(o_) == 0
+        ok2 = ok2 and o_ is not None and s_ is not None and norm(s_) in (f'self.tx_counts[{p}] - {norm(o_)}', f'self.tx_counts[{p}] - ({norm(o_)})')
+    ok = ok and seen >= 2
+    ok2 = ok2 and seen >= 1
     ctx.check(ok, 'C02.BYHEIGHT', ctx.key(f, None, 'first tx number'), 'the first tx number of a block is the cumulative count of the previous block (0 for genesis)',
-              f'first tx number of a block is not tx_counts[height - 1] / 0: {vals}', loc=ctx.loc(f, f.node))
+              f'first tx number of a block is not tx_counts[height - 1] / 0: {sorted(set(vals))}', loc=ctx.loc(f, f.node))
     n += 1
-    cdefs = d.get(cv, []) if cv else []
-    ok2 = len(cdefs) == 1 and fv is not None and norm(cdefs[0][1]) == f'self.tx_counts[{p}] - {fv}'
     ctx.check(ok2, 'C02.BYHEIGHT', ctx.key(f, None, 'span read'), 'exactly the block\'s hashes are read: count * 32 bytes at first * 32',
               'the bytes read are not (tx_counts[h] - first) * 32 at first * 32', loc=ctx.loc(f, f.node))
     n += 1
